@@ -101,3 +101,101 @@ func callName(cc *ssa.CallCommon) string {
 	}
 	return ""
 }
+
+// c04SignalsDuringInit: L13 — a process can be linked before it is in the process table: its
+// ProcessInit callback may call Link* or Spawn(LinkChild), and spawn enters the process into
+// `processes` only when ProcessInit has returned. An exit signal for it that arrives meanwhile must
+// not be dropped: (a) spawn enters the process into a second table before it invokes ProcessInit and
+// takes it out on the success path only after processes.Store; (b) the exit delivery helper looks the
+// addressee up in that table first and in `processes` second (spawn's order makes one of them hit).
+func c04SignalsDuringInit(a *Anchors, r *core.Report) {
+	rule := "C04.L13 exit-signal-reaches-a-process-in-init"
+	r.Floor(rule, 2)
+	p := a.P
+	nodeT := a.NodeT.Obj().Name()
+	spawn := p.Func("node", nodeT, "spawn")
+	deliver := p.Func("node", nodeT, "sendExitMessage")
+	if spawn == nil || deliver == nil {
+		r.Unk(rule, "C04.L13|anchors", "", "", "spawn and sendExitMessage are found", "missing")
+		return
+	}
+	tableOp := func(in ssa.Instruction, method string) string {
+		c, ok := in.(*ssa.Call)
+		if !ok {
+			return ""
+		}
+		if m, okm := syncMapCall(c.Common()); !okm || m != method {
+			return ""
+		}
+		if own, _ := fieldOwner(c.Common().Args[0]); own != a.NodeT {
+			return ""
+		}
+		_, path, okp := fieldPath(c.Common().Args[0])
+		if !okp || len(path) == 0 {
+			return ""
+		}
+		return path[len(path)-1]
+	}
+	var initCall, reg ssa.Instruction
+	eachInstr(spawn, func(in ssa.Instruction) {
+		if cc := callCommon(in); cc != nil && cc.IsInvoke() && cc.Method.Name() == "ProcessInit" {
+			initCall = in
+		}
+		if tableOp(in, "Store") == "processes" {
+			reg = in
+		}
+	})
+	key1 := "C04.L13|" + fname(spawn) + "|reachable-during-init"
+	inst1 := "the process is entered into a table of initializing processes before ProcessInit and taken out, on the success path, only after it is in the process table"
+	if initCall == nil || reg == nil {
+		r.Unk(rule, key1, fname(spawn), p.Pos(spawn.Pos()), inst1, "ProcessInit call or processes.Store not found")
+		return
+	}
+	table := ""
+	eachInstr(spawn, func(in ssa.Instruction) {
+		if t := tableOp(in, "Store"); t != "" && t != "processes" && instrDominates(in, initCall) {
+			// the key is the new pid
+			table = t
+		}
+	})
+	if table == "" {
+		r.Bad(rule, key1, fname(spawn), p.Pos(initCall.Pos()), inst1, "nothing makes the process reachable while ProcessInit runs: a child spawned with LinkChild (or a process linked with Link*) in Init that terminates before Init returns sends its exit signal to an unknown process — the signal is dropped and the relation is consumed")
+	} else {
+		bad := ""
+		eachInstr(spawn, func(in ssa.Instruction) {
+			if tableOp(in, "Delete") != table {
+				return
+			}
+			// on the success path (reachable from the registration or reaching it) the removal follows the registration
+			if instrReachable(in, reg) {
+				bad = "the process is taken out of '" + table + "' at " + p.Pos(in.Pos()) + " before it is in the process table: a signal in between finds it in neither"
+			}
+		})
+		if bad != "" {
+			r.Bad(rule, key1, fname(spawn), p.Pos(reg.Pos()), inst1, bad)
+		} else {
+			r.OK(rule, key1, fname(spawn), p.Pos(initCall.Pos()), inst1, "table '"+table+"': Store dominates the ProcessInit call; no Delete of it can be followed by processes.Store")
+		}
+	}
+	key2 := "C04.L13|" + fname(deliver) + "|lookup-order"
+	inst2 := "the exit delivery looks the addressee up among the initializing processes first and in the process table second"
+	var first, second ssa.Instruction
+	eachInstr(deliver, func(in ssa.Instruction) {
+		switch t := tableOp(in, "Load"); {
+		case t == "processes":
+			second = in
+		case t != "" && t == table:
+			first = in
+		}
+	})
+	switch {
+	case table == "":
+		r.Bad(rule, key2, fname(deliver), p.Pos(deliver.Pos()), inst2, "there is no such table")
+	case first == nil || second == nil:
+		r.Bad(rule, key2, fname(deliver), p.Pos(deliver.Pos()), inst2, "the delivery does not consult '"+table+"': an exit signal for a process in its Init callback is answered with 'unknown process' and dropped")
+	case !instrDominates(first, second):
+		r.Bad(rule, key2, fname(deliver), p.Pos(second.Pos()), inst2, "the process table is consulted first: spawn registers the process and then takes it out of '"+table+"', so a lookup in this order can miss both")
+	default:
+		r.OK(rule, key2, fname(deliver), p.Pos(first.Pos()), inst2, "'"+table+"'.Load dominates processes.Load")
+	}
+}
